@@ -160,15 +160,32 @@ def mirror_steps(env, node, deps, st):
 
 
 def mirror_run(env, node, deps, st, validate=True):
-  """States after every pass; None if the mirror does not reproduce Optimize."""
+  """States after every pass; None if the mirror does not reproduce Optimize.  Tries one
+  sweep first (the historical Optimize) and then sweeps to a fixed point (Optimize since
+  2780ba8)."""
   try:
     steps = mirror_steps(env, node, deps, st)
     states = [node]
     for _, f in steps:
       states.append(f(states[-1]))
-    if validate and not unit_eq(states[-1], env.opt(node, deps, st)):
-      return None, None
-    return steps, states
+    if not validate:
+      return steps, states
+    real = env.opt(node, deps, st)
+    if unit_eq(states[-1], real):
+      return steps, states
+    all_steps = list(steps)
+    cur_start = node
+    for _ in range(10):
+      if unit_eq(states[-1], cur_start):
+        break
+      cur_start = states[-1]
+      more = mirror_steps(env, cur_start, deps, st)
+      for _, f in more:
+        states.append(f(states[-1]))
+      all_steps += more
+      if unit_eq(states[-1], real):
+        return all_steps, states
+    return None, None
   except Exception:   # pylint: disable=broad-except
     return None, None
 
@@ -423,7 +440,7 @@ class Judge:
     except Exception as e:   # pylint: disable=broad-except
       self.count(f"optimize_raised[{type(e).__name__}]")
       self.count("not_judged_optimize_raised")
-      return
+      return None
     if count_eval:
       self.n += 1
     self.tables["settings"][lab] = self.tables["settings"].get(lab, 0) + 1
@@ -477,6 +494,7 @@ class Judge:
             seen_what.add(p["what"])
             self._report_compare(o1, deps, st, den, p, origin, unit_text,
                                  stage="re-optimisation")
+    return t1
 
   # .. reporting ...........................................................
   def _diff_paths(self, a, b):
@@ -767,11 +785,20 @@ def child_programs(arg):
   env = Env()
   J = Judge(env)
   n_prog = 0
-  for i in range(arg["count"]):
-    src = programs.generate(random.Random(f"{arg['seed']}-p{i}"))
+  shared = None
+  sources = [programs.generate(random.Random(f"{arg['seed']}-p{i}")) for i in range(arg["count"])]
+  if arg.get("shared_loader"):
+    # one loader (hence one cached deps object) for a whole batch of analyses, as
+    # io.generate_pyi(src, options, loader) allows; starts with programs that re-use the
+    # class names A, B, C with different inheritance
+    from pytype import load_pytd
+    shared = load_pytd.create_loader(pt.options())
+    sources = HISTORY_PROGRAMS + sources + HISTORY_PROGRAMS[::-1]
+    J.count("programs_analysed_with_a_shared_loader", len(sources))
+  for i, src in enumerate(sources):
     before = len(dn.RECORDS)
     try:
-      pt.analyze(src)
+      pt.analyze(src, loader=shared)
     except Exception as e:   # pylint: disable=broad-except
       J.count(f"analysis_failed[{type(e).__name__}]")
       continue
@@ -859,6 +886,128 @@ def child_bundled(arg):
     for st in _pick_settings(rng, arg["nsettings"], arg.get("everything")):
       J.judge(ast, deps, st, den, {"kind": "bundled stub", "module": m}, unit_text=None)
   return J.result()
+
+
+HISTORY_KEY = ("Optimize output depends on earlier Optimize calls in the same process "
+               "(same unit, same deps content, different result)")
+HISTORY_MODULE = "hmod"
+
+
+def _history_unit(seed, i):
+  """Unit i of history sequence `seed`: same module name and class names A..E every time,
+  hierarchy variant and contents from the seed (independent of the order of processing)."""
+  from vf.gen import pytdtypes
+  r = random.Random(f"{seed}-h{i}")
+  variant = r.randrange(len(pytdtypes.HIERARCHIES))
+  if i % 3 == 0:
+    # a small unit whose unions are made of the five class names: sensitive to the hierarchy
+    names = pytdtypes.USER
+    decls = []
+    for k in range(4):
+      ms = r.sample(names, r.choice([2, 2, 3, 5]))
+      decls.append(f"c{k}: Union[{', '.join(ms)}]")
+    ms = r.sample(names, 2)
+    decls.append(f"def f(x: Union[{ms[0]}, {ms[1]}], y: list[Union[{ms[1]}, {ms[0]}]]) -> "
+                 f"Union[{', '.join(r.sample(names, 3))}]: ...")
+    text = pytdtypes.single_decl_unit("\n".join(decls), hierarchy=variant)
+    feats = [f"hierarchy{variant}", "class-unions"]
+  else:
+    u = pytdtypes.generate_unit(r, HISTORY_MODULE, size=r.randint(2, 4), hierarchy=variant)
+    text, feats = u["text"], u["features"]
+  k = r.choice([1, 2, 2, 3])
+  sts = [dict(DEFAULTS)] + r.sample([x for x in all_settings() if x != DEFAULTS], k)
+  r.shuffle(sts)
+  return text, feats, sts, variant
+
+
+def child_history(arg):
+  """One loader and ONE deps object for a whole sequence of units that re-use the module name
+  and the class names A..E with different hierarchies, settings vectors interleaved.  Every
+  unit is judged against a universe built from its own class definitions; afterwards every
+  (unit, settings) is optimised again with a fresh deps object of the same content and the
+  two outputs are compared; the parent compares the outputs of different processing orders."""
+  import hashlib
+  from vf.gen import pytdtypes
+  env = Env()
+  J = Judge(env)
+  seed, count = arg["seed"], arg["count"]
+  deps0 = env.loader.concat_all()          # computed once, used for every unit
+  order = list(range(count))
+  if arg["order"] == "rev":
+    order.reverse()
+  elif arg["order"] == "shuf":
+    random.Random(f"{seed}-order").shuffle(order)
+  feats_seen = {}
+  asts, outputs = {}, {}
+  for i in order:
+    text, feats, sts, variant = _history_unit(seed, i)
+    try:
+      ast = env.load_text(text, HISTORY_MODULE)
+    except Exception as e:   # pylint: disable=broad-except
+      J.count(f"generated_unit_rejected_by_parser[{type(e).__name__}]")
+      continue
+    finally:
+      env.unload(HISTORY_MODULE)           # the loader forgets it; deps0 stays what it was
+    for f in feats:
+      feats_seen[f] = feats_seen.get(f, 0) + 1
+    h = env.dn.hierarchy_for(ast, deps0)   # subclass relation from this unit's own classes
+    den = env.dn.Denote(h, [f"{HISTORY_MODULE}.{c}" for c in pytdtypes.USER])
+    asts[i] = (ast, text, sts)
+    for st in sts:
+      t1 = J.judge(ast, deps0, st, den,
+                   {"kind": "history", "seed": seed, "index": i, "order": arg["order"],
+                    "count": count, "hierarchy": variant}, unit_text=text, feats=feats)
+      if t1 is not None:
+        outputs[(i, label(st))] = t1
+  J.count("history_units", len(asts))
+  # second phase: the same inputs with a fresh deps object each (same content)
+  for i in order:
+    if i not in asts:
+      continue
+    ast, text, sts = asts[i]
+    for st in sts:
+      if (i, label(st)) not in outputs:
+        continue
+      env.loader._modules.invalidate_concatenated()   # pylint: disable=protected-access
+      fresh = env.loader.concat_all()
+      try:
+        t2 = env.text(env.opt(ast, fresh, st))
+      except Exception as e:   # pylint: disable=broad-except
+        J.count(f"optimize_raised[{type(e).__name__}]")
+        continue
+      J.count("history_fresh_deps_comparisons")
+      if t2 != outputs[(i, label(st))]:
+        J.ctx = {}
+        J._emit(HISTORY_KEY, {   # pylint: disable=protected-access
+            "origin": {"kind": "history", "seed": seed, "index": i, "order": arg["order"],
+                       "count": count},
+            "settings": st, "unit_text": text, "what": "history",
+            "with_shared_deps_after_history": _first_diff(outputs[(i, label(st))], t2)[0],
+            "with_fresh_deps": _first_diff(outputs[(i, label(st))], t2)[1]})
+  r = J.result()
+  r["features"] = feats_seen
+  r["digests"] = {f"{i}|{lab}": hashlib.sha1(t.encode()).hexdigest()[:16]
+                  for (i, lab), t in outputs.items()}
+  return r
+
+
+def _first_diff(a, b):
+  la, lb = a.split("\n"), b.split("\n")
+  for x, y in zip(la, lb):
+    if x != y:
+      return x, y
+  return a[-300:], b[-300:]
+
+
+HISTORY_PROGRAMS = [
+    "class A: pass\nclass B(A): pass\ndef f(c):\n  return A() if c else B()\nx = [A(), B()]\n",
+    "class A: pass\nclass B: pass\ndef f(c):\n  return A() if c else B()\nx = [A(), B()]\n",
+    "class B: pass\nclass A(B): pass\ndef f(c):\n  return A() if c else B()\nx = [A(), B()]\n",
+    "class A: pass\nclass B: pass\nclass C(A, B): pass\ndef f(c):\n  return B() if c else C()\n"
+    "def g(c):\n  return A() if c else B()\n",
+    "class C: pass\nclass A(C): pass\nclass B: pass\ndef f(c):\n  return B() if c else C()\n"
+    "def g(c):\n  return A() if c else B()\n",
+]
 
 
 def _capture_optimize_input(src):
@@ -957,7 +1106,8 @@ def child_shrink(arg):
 
 def child(arg):
   return {"gen": child_gen, "hand": child_hand, "programs": child_programs,
-          "bundled": child_bundled, "shrink": child_shrink}[arg["kind"]](arg)
+          "bundled": child_bundled, "shrink": child_shrink,
+          "history": child_history}[arg["kind"]](arg)
 
 
 # ---------------------------------------------------------------------------
@@ -983,12 +1133,14 @@ def _all_tasks(tier, seed):
   if tier == "quick":
     gen_batches, gen_count, nsettings, all_every = 16, 30, 5, 15
     prog_batches, prog_count = 8, 8
+    hist_seqs, hist_count = 4, 30
     bundled_sets = [(["builtins"], 3, False), (["typing"], 4, False),
                     ([m for m in BUNDLED if m not in ("builtins", "typing")], 6, False)]
     soft = 45
   else:
     gen_batches, gen_count, nsettings, all_every = 48, 100, 8, 10
     prog_batches, prog_count = 24, 20
+    hist_seqs, hist_count = 16, 60
     bundled_sets = [(["builtins"], 0, True), (["typing"], 0, True),
                     ([m for m in BUNDLED if m not in ("builtins", "typing")], 0, True)]
     soft = 600
@@ -998,7 +1150,13 @@ def _all_tasks(tier, seed):
                           "everything": everything, "seed": rng.randrange(1 << 30)}})
   for b in range(prog_batches):
     tasks.append({"fn": "vf.checks.c11:child", "id": f"programs/{b}", "timeout": 1500,
-                  "arg": {"kind": "programs", "count": prog_count, "seed": rng.randrange(1 << 30)}})
+                  "arg": {"kind": "programs", "count": prog_count, "seed": rng.randrange(1 << 30),
+                          "shared_loader": b % 2 == 0}})
+  for b in range(hist_seqs):
+    hseed = rng.randrange(1 << 30)
+    for order in ("fwd", "rev", "shuf"):
+      tasks.append({"fn": "vf.checks.c11:child", "id": f"history/{b}/{order}", "timeout": 1500,
+                    "arg": {"kind": "history", "count": hist_count, "seed": hseed, "order": order}})
   nsh = 4
   for s in range(nsh):
     tasks.append({"fn": "vf.checks.c11:child", "id": f"hand/{s}", "timeout": 1500,
@@ -1029,7 +1187,8 @@ def run(tier, seed):
       for k in json.load(f):
         ck.known.setdefault(k, {"key": k})
   tasks = _tasks(tier, seed)
-  kinds = {"gen": 0, "hand": 0, "programs": 0, "bundled": 0}
+  kinds = {"gen": 0, "hand": 0, "programs": 0, "bundled": 0, "history": 0}
+  digests = {}      # history sequence -> order -> {unit|settings: digest}
   monitor = {"calls": 0, "checked": 0, "errors": 0}
   features = {}
   found = []
@@ -1060,6 +1219,11 @@ def run(tier, seed):
     for f, n in (r.get("features") or {}).items():
       features[f] = features.get(f, 0) + n
     found.extend(r["violations"])
+    if kind == "history":
+      _, seq, order = str(res.get("task")).split("/")
+      digests.setdefault(seq, {})[order] = (r["digests"], next(
+          t["arg"]["seed"] for t in tasks if t["id"] == res.get("task")))
+  found.extend(_compare_orders(ck, digests))
   _shrink_and_report(ck, found)
   ck.extra["evaluations_by_workload"] = kinds
   ck.extra["child_cpu_seconds_by_workload"] = cpu
@@ -1078,6 +1242,8 @@ def run(tier, seed):
       "collapse of a union longer than max_union to Any is treated as a permitted rewrite",
       "inhabitants of a type are enumerated with caps (28 per type, 40 argument vectors per signature)",
   ]
+  if kinds["history"] and not ck.counters.get("history_fresh_deps_comparisons"):
+    ck.inconclusive("the history workload made no fresh-deps comparison")
   if os.environ.get("VERIF_C11_ONLY"):
     ck.assumptions.append("partial run: VERIF_C11_ONLY=" + os.environ["VERIF_C11_ONLY"])
   elif kinds["gen"] == 0:
@@ -1087,6 +1253,31 @@ def run(tier, seed):
   if ck.counters.get("idempotence_reruns", 0) == 0:
     ck.inconclusive("no idempotence re-run happened")
   return ck.finish()
+
+
+def _compare_orders(ck, digests, counts=None):
+  """History independence across processes: a unit optimised as the k-th of a sequence must
+  give the same text whatever was optimised before it."""
+  out = []
+  for seq, by_order in sorted(digests.items()):
+    orders = sorted(by_order)
+    for a in range(len(orders)):
+      for b in range(a + 1, len(orders)):
+        da, seed = by_order[orders[a]]
+        db, _ = by_order[orders[b]]
+        for k in sorted(set(da) & set(db)):
+          ck.count("history_cross_order_comparisons")
+          if da[k] != db[k] and len(out) < 6:
+            i, lab = k.split("|")
+            text, _, sts, variant = _history_unit(seed, int(i))
+            st = next((x for x in sts if label(x) == lab), None)
+            out.append({"key": HISTORY_KEY, "what": "history",
+                        "origin": {"kind": "history", "seed": seed, "index": int(i),
+                                   "count": max(int(x.split("|")[0]) for x in da) + 1,
+                                   "orders": [orders[a], orders[b]], "hierarchy": variant},
+                        "settings": st, "unit_text": text,
+                        "digests": {orders[a]: da[k], orders[b]: db[k]}})
+  return out
 
 
 def _shrink_and_report(ck, found):
@@ -1122,7 +1313,21 @@ def replay(rec):
   J = Judge(env)
   origin = w.get("origin", {})
   st = w.get("settings") or dict(DEFAULTS)
-  if w.get("unit_text"):
+  if origin.get("kind") == "history":
+    # the witness is a position in a sequence: re-run the sequence(s) in fresh processes
+    orders = origin.get("orders") or [origin.get("order", "fwd")]
+    tasks = [{"fn": "vf.checks.c11:child", "id": f"history/0/{o}", "timeout": 1500,
+              "arg": {"kind": "history", "count": origin.get("count", origin["index"] + 1),
+                      "seed": origin["seed"], "order": o}} for o in orders]
+    digests = {}
+    ck = common.Check(PID, "replay", rec.get("seed", 0), rule="replay")
+    for res in pool.run_tasks(tasks):
+      if res.get("ok"):
+        J.violations += res["result"]["violations"]
+        digests.setdefault("0", {})[res["task"].split("/")[2]] = (res["result"]["digests"],
+                                                                   origin["seed"])
+    J.violations += _compare_orders(ck, digests)
+  elif w.get("unit_text"):
     judge_text(env, J, w["unit_text"], "replayed", [st], origin)
   elif origin.get("kind") == "bundled stub":
     r = child_bundled({"kind": "bundled", "modules": [origin["module"]], "nsettings": 0,
